@@ -1,12 +1,16 @@
 #!/bin/bash
-# Builds every check once (warms the Go build cache); offline.
+# Builds every check claimed in MANIFEST.json once (warms the Go build cache); offline.
 set -u
 cd "$(dirname "$0")"
 export GOFLAGS=-mod=mod GOPROXY=off
 mkdir -p bin evidence build/tmp
 rc=0
-for d in mc/checks/*/; do
-  id=$(basename "$d")
-  ( cd mc && go build -tags verif -o "../bin/$id" "./checks/$id" ) || rc=2
+for ID in $(python3 -c "import json;print(' '.join(c['property_id'] for c in json.load(open('MANIFEST.json'))['checks']))"); do
+  id=$(echo "$ID" | tr 'A-Z' 'a-z')
+  if [ -x "mc/checks/$id/build.sh" ]; then
+    "mc/checks/$id/build.sh" /repo "$(pwd)/bin/$id" || rc=2
+  else
+    ( cd mc && go build -tags verif -o "../bin/$id" "./checks/$id" ) || rc=2
+  fi
 done
 exit $rc
